@@ -56,7 +56,7 @@ class ReadoutProperties:
             raise ValueError("Readout times must be 1D")
         elif times_1d[0] == 0:
             raise ValueError("Readout times should be non-zero values.")
-        elif start_time >= times_1d[0]:
+        elif not start_time < times_1d[0]:  # written with 'not <' to also reject NaN
             raise ValueError("Readout times should be greater than start time.")
         elif not np.all(np.diff(times_1d) > 0):
             raise ValueError("Readout times must be strictly increasing")
